@@ -31,8 +31,11 @@ def bits_of(b):
 
 @st.composite
 def write_case(draw, tier):
-    k = draw(st.integers(0, 9))
-    if k == 0:
+    k = draw(st.integers(0, 19))
+    if k == 19:
+        from vf.common import big_bits_st
+        bits = draw(big_bits_st())     # megabit-scale content, stored compactly
+    elif k == 0:
         bits = draw(bits_of_len(draw(st.integers(4000, 9000))))
     else:
         bits = draw(bits_st(max_len=600, long=True))
@@ -42,7 +45,8 @@ def write_case(draw, tier):
 
 def run_write(case):
     bs = bitstring_module()
-    bits = case['bits']
+    from vf.common import expand_bits
+    bits = expand_bits(case['bits'])
     n = len(bits)
     exp = ref_bytes(bits)
     src_tmp = None
@@ -69,6 +73,8 @@ def _run_write(case, bs, bits, n, exp, x):
     else:
         require(is_raised(b, ValueError), '.bytes must refuse a length that is not a whole number of bytes (InterpretError)', got=b, n=n)
     chunk = case['chunk']
+    if chunk and n > 100000:
+        chunk = max(chunk, 8 * 8192)     # keep the number of chunks of a megabit object moderate
     old = os.environ.pop('BITSTRING_VERIF_TOFILE_CHUNK_BITS', None)
     try:
         if chunk:
